@@ -52,10 +52,7 @@ bool vx_rss_empty(const struct rule_info* ri, size_t start)
 __CPROVER_requires(__CPROVER_r_ok(ri, sizeof(*ri)) && start <= max_rule_element_count)
 __CPROVER_assigns()
 __CPROVER_ensures(__CPROVER_return_value == g_sp_empty);
-const struct cbitset* vx_rss_first(const struct rule_info* ri, size_t start)
-__CPROVER_requires(__CPROVER_r_ok(ri, sizeof(*ri)) && start <= max_rule_element_count)
-__CPROVER_assigns()
-__CPROVER_ensures(__CPROVER_return_value == &g_sp_first);
+const struct cbitset* vx_rss_first(const struct rule_info* ri, size_t start) { __CPROVER_assert(start <= max_rule_element_count, "make_right_side_slice_first: start within the right side"); return &g_sp_first; }
 #define C_RI (gi.rule_infos[g_it_ri])
 #define C_INCOMPLETE (g_it_after < C_RI.r_elements)
 #define C_SYM (gi.right_sides[C_RI.r_idx][g_it_after])
@@ -73,3 +70,23 @@ __CPROVER_ensures(__CPROVER_return_value == g_enc[info.rule_info_idx][info.after
 #define C_CNT(t) ((size_t)(0 < (t) && VX_BIT(g_sp_first, 0)) + (size_t)(1 < (t) && VX_BIT(g_sp_first, 1)) + (size_t)(2 < (t) && VX_BIT(g_sp_first, 2)) + (size_t)(3 < (t) && VX_BIT(g_sp_first, 3)))
 #define C_CL (closures[sit_idx])
 #define C_IN_CL(x) (__CPROVER_exists { size_t vq_ex; (vq_ex < VX_CAP) && (vq_ex < C_CL.current_size && C_CL.the_data[vq_ex] == (x)) })
+/* ---- FIRST / nullable: the four memoised functions call each other; each is verified against what the OTHER three return
+   (ghost tables; that the tables are the least fixed point is not claimed here - finding D4) ---- */
+bool g_spn[PH_NTERMS]; struct cbitset g_spf[PH_NTERMS]; bool g_sre[PH_RULES]; struct cbitset g_srf[PH_RULES]; size_t g_t;
+#define FN_TABS_OK (__CPROVER_forall { size_t vq_ft; (vq_ft < PH_NTERMS) ==> VX_BS_WF(g_spf[vq_ft], term_count) } && __CPROVER_forall { size_t vq_fu; (vq_fu < PH_RULES) ==> VX_BS_WF(g_srf[vq_fu], term_count) })
+#define FN_RI_OK(ri) (__CPROVER_same_object(ri, &gi) && (ri) >= &gi.rule_infos[0] && (size_t)((ri) - &gi.rule_infos[0]) < rule_count && (ri) == &gi.rule_infos[(ri) - &gi.rule_infos[0]])
+/* abstract callees that return a reference are ghost functions WITH a body (inlined): cbmc does not track a pointer that a replaced
+   contract returns (its dereference yields an arbitrary object), see DESIGN.md 0.4 */
+const struct cbitset* vx_nterm_first(size16_t nt) { __CPROVER_assert(nt < nterm_count, "make_nterm_first: nonterminal index in range"); return &g_spf[nt]; }
+bool vx_nterm_empty(size16_t nt)
+__CPROVER_requires(nt < nterm_count) __CPROVER_assigns() __CPROVER_ensures(__CPROVER_return_value == g_spn[nt]);
+const struct cbitset* vx_rss_first0(const struct rule_info* ri, size_t start) { __CPROVER_assert(FN_RI_OK(ri) && start == 0, "make_right_side_slice_first: rule of the grammar, from its first symbol"); return &g_srf[ri - &gi.rule_infos[0]]; }
+bool vx_rs_empty0(const struct rule_info* ri)
+__CPROVER_requires(FN_RI_OK(ri)) __CPROVER_assigns() __CPROVER_ensures(__CPROVER_return_value == g_sre[ri - &gi.rule_infos[0]]);
+/* specification of FIRST / nullable of the slice [start, r_elements) of rule ri for right sides of at most 2 symbols (PH_MAXLEN == 2) */
+#define FS_SYM(ri, i) (gi.right_sides[(ri)->r_idx][i])
+#define FS_PASS(ri, i) (!FS_SYM(ri, i).term && g_spn[FS_SYM(ri, i).idx])
+#define FS_CONTRIB(ri, i) (FS_SYM(ri, i).term ? FS_SYM(ri, i).idx == g_t : VX_BIT(g_spf[FS_SYM(ri, i).idx], g_t) == 1)
+#define FS_FIRST(ri, st, upto) (((st) < (upto) && (st) < PH_MAXLEN && FS_CONTRIB(ri, st)) || ((st) + 1 < (upto) && (st) + 1 < PH_MAXLEN && FS_PASS(ri, st) && FS_CONTRIB(ri, (st) + 1)))
+#define FS_NULLABLE(ri, st, upto) (((st) < (upto) && (st) < PH_MAXLEN ? FS_PASS(ri, st) : 1) && ((st) + 1 < (upto) && (st) + 1 < PH_MAXLEN ? FS_PASS(ri, (st) + 1) : 1))
+#define VX_BS_EMPTY(b) (__CPROVER_forall { size_t vq_be; (vq_be < CB_WORDS) ==> (b).data[vq_be] == 0 })
